@@ -1,4 +1,5 @@
 (* one line per model entry point *)
 let table = [
   ("share", Model.entry_share);
+  ("tbls", Model.entry_tbls);
 ]
